@@ -684,7 +684,7 @@ func TestVerifC16Texttab(t *testing.T) {
 		return ok && v.(bool)
 	}
 	main := kit.Class[c16Table]{
-		Name: "texttab-layout", Quick: 20000, Thorough: 1500000,
+		Name: "texttab-layout", Quick: 20000, Thorough: 1200000,
 		Gen:           func(r *kit.Rand, i int) c16Table { return c16GenTable(r, i, false) },
 		Check:         func(c c16Table) *kit.Fail { return c16CheckTable(c, false) },
 		NonTrivial:    nonTrivial,
@@ -694,7 +694,7 @@ func TestVerifC16Texttab(t *testing.T) {
 			"every multi-column span has a non-shrink column, first row not empty. non-trivial = fully checked table with >= 2 rendered rows and >= 1 multi-column span",
 	}
 	allShrink := kit.Class[c16Table]{
-		Name: "texttab-allshrink-span", Quick: 3000, Thorough: 200000,
+		Name: "texttab-allshrink-span", Quick: 3000, Thorough: 150000,
 		Gen:           func(r *kit.Rand, i int) c16Table { return c16GenTable(r, 1<<40+i, true) },
 		Check:         func(c c16Table) *kit.Fail { return c16CheckTable(c, true) },
 		NonTrivial:    func(c c16Table) bool { return c16AllShrinkMustGrow(c) != "" },
